@@ -76,6 +76,13 @@ pub struct PeerState {
     /// answer `CSI c` with a DA1 report
     pub answer_da1: AtomicBool,
     pub da1_answered: AtomicUsize,
+    /// answer `CSI 6 n` with this cursor position report (1-based row, col); 0 = do not answer
+    pub cpr_row: AtomicUsize,
+    pub cpr_col: AtomicUsize,
+    /// wait this long before answering the requests found in one read (a slow terminal)
+    pub reply_delay_ms: AtomicUsize,
+    /// typed by the user right behind the next DA1 answer, in the same write (consumed)
+    pub reply_suffix: Mutex<Vec<u8>>,
     /// the master side got EIO/hangup
     pub hangup: AtomicBool,
 }
@@ -96,6 +103,10 @@ impl Peer {
             stop: AtomicBool::new(false),
             answer_da1: AtomicBool::new(true),
             da1_answered: AtomicUsize::new(0),
+            cpr_row: AtomicUsize::new(0),
+            cpr_col: AtomicUsize::new(0),
+            reply_delay_ms: AtomicUsize::new(0),
+            reply_suffix: Mutex::new(Vec::new()),
             hangup: AtomicBool::new(false),
         });
         let master = pty.master.as_raw_fd();
@@ -104,6 +115,7 @@ impl Peer {
             .name("pty-peer".into())
             .spawn(move || {
                 let mut scan = 0usize; // how much of `received` was scanned for DA1 requests
+                let mut scan_cpr = 0usize; // ... and for cursor position requests
                 let mut buf = vec![0u8; 1 << 16];
                 while !st.stop.load(Ordering::Relaxed) {
                     if st.stalled.load(Ordering::Relaxed) {
@@ -134,6 +146,7 @@ impl Peer {
                     }
                     let n = n as usize;
                     let mut answers = 0usize;
+                    let mut cpr_answers = 0usize;
                     {
                         let mut rec = st.received.lock().unwrap();
                         rec.extend_from_slice(&buf[..n]);
@@ -150,9 +163,34 @@ impl Peer {
                         } else {
                             scan = rec.len().saturating_sub(2);
                         }
+                        if st.cpr_row.load(Ordering::Relaxed) > 0 {
+                            while scan_cpr + 4 <= rec.len() {
+                                if &rec[scan_cpr..scan_cpr + 4] == b"\x1b[6n" {
+                                    cpr_answers += 1;
+                                    scan_cpr += 4;
+                                } else {
+                                    scan_cpr += 1;
+                                }
+                            }
+                        } else {
+                            scan_cpr = rec.len().saturating_sub(3);
+                        }
+                    }
+                    if answers + cpr_answers > 0 {
+                        let delay = st.reply_delay_ms.load(Ordering::Relaxed);
+                        if delay > 0 {
+                            std::thread::sleep(Duration::from_millis(delay as u64));
+                        }
+                    }
+                    for _ in 0..cpr_answers {
+                        let reply = format!("\x1b[{};{}R", st.cpr_row.load(Ordering::Relaxed), st.cpr_col.load(Ordering::Relaxed));
+                        unsafe {
+                            libc::write(master, reply.as_ptr() as *const libc::c_void, reply.len());
+                        }
                     }
                     for _ in 0..answers {
-                        let reply = b"\x1b[?62;c";
+                        let mut reply = b"\x1b[?62;c".to_vec();
+                        reply.append(&mut st.reply_suffix.lock().unwrap());
                         // counted before the reply is written: whoever has read the reply can
                         // rely on the count (and on `received`) being up to date
                         st.da1_answered.fetch_add(1, Ordering::SeqCst);
